@@ -82,7 +82,8 @@ void run_array(Input const& in, Ctx& ctx, char const* tname) {
 	} else { if(prior != 0) { B = multi::array<T, D>(make_elem<T>(47)); } }
 	load(data, B, arch);
 	VP_CHECK(static_cast<long>(B.num_elements()) == static_cast<long>(A.num_elements()), "serial/num_elements", "loaded array has " << B.num_elements() << " elements, saved " << A.num_elements());
-	if constexpr(D > 0) { if(n > 0) { long sa[D], sb[D]; vp::lib_sizes(A, sa); vp::lib_sizes(B, sb); for(int k = 0; k < D; ++k) { VP_CHECK(sa[k] == sb[k], "serial/extents", "extent " << k << " loaded as " << sb[k] << ", saved " << sa[k]); }
+	// (for arrays without elements the saved array's own reported sizes and index ranges are the reference: the library collapses some empty shapes at construction)
+	if constexpr(D > 0) { { long sa[D], sb[D]; vp::lib_sizes(A, sa); vp::lib_sizes(B, sb); for(int k = 0; k < D; ++k) { VP_CHECK(sa[k] == sb[k], "serial/extents", "extent " << k << " loaded as " << sb[k] << ", saved " << sa[k]); }
 		long fa[D], la[D], fb[D], lb[D]; vp::lib_extensions(A, fa, la); vp::lib_extensions(B, fb, lb);
 		for(int k = 0; k < D; ++k) { VP_CHECK(fa[k] == fb[k] && la[k] == lb[k], "serial/extensions", "index range " << k << " loaded as [" << fb[k] << "," << lb[k] << "), saved [" << fa[k] << "," << la[k] << ")"); } } }
 	{ std::size_t j = 0; for(auto const& el : B.elements()) { VP_CHECK(el == vals[j], "serial/elements", "element " << j << " differs after the round trip"); ++j; } }
